@@ -4343,7 +4343,7 @@ func (e *lbEngine) tokLenStore(in *lbInst, stp **lstate, x *ssa.Store) bool {
 			} else {
 				st = st.eq(linAtom(k), linConst(0))
 			}
-		} else if kindNotParam(x) {
+		} else if kindNotParam(x) || e.w.neverParamKind(x.Val, 0) || e.shorterThanParamKind(in, st, x.Val) {
 			st = st.eq(linAtom(k), linConst(0))
 		} else {
 			// not a constant: may be <param>
@@ -4360,6 +4360,92 @@ func (e *lbEngine) tokLenStore(in *lbInst, stp **lstate, x *ssa.Store) bool {
 	}
 	*stp = st
 	return true
+}
+
+// neverParamKind: a value stored into Token.Kind that is "<param>" on no path: a constant, a phi of such values, a
+// parameter that only receives such values (`l.Token.Kind = kind` in a reader that is told the kind of its literal), a
+// value looked up in a constant table without that entry.
+func (w *World) neverParamKind(v ssa.Value, depth int) bool {
+	if depth > 5 {
+		return false
+	}
+	for {
+		switch x := v.(type) {
+		case *ssa.ChangeType:
+			v = x.X
+			continue
+		case *ssa.Convert:
+			v = x.X
+			continue
+		}
+		break
+	}
+	if c, ok := constString(v); ok {
+		return c != "<param>"
+	}
+	switch x := v.(type) {
+	case *ssa.Phi:
+		for _, e := range x.Edges {
+			if e != ssa.Value(x) && !w.neverParamKind(e, depth+1) {
+				return false
+			}
+		}
+		return len(x.Edges) > 0
+	case *ssa.Parameter:
+		fn := x.Parent()
+		idx := -1
+		for i, p := range fn.Params {
+			if p == x {
+				idx = i
+			}
+		}
+		n := 0
+		for _, site := range w.callersOf(fn) {
+			if site.Parent() != nil && site.Parent().Synthetic != "" && len(w.callersOf(site.Parent())) == 0 {
+				continue
+			}
+			args := site.Common().Args
+			if idx < 0 || idx >= len(args) || !w.neverParamKind(args[idx], depth+1) {
+				return false
+			}
+			n++
+		}
+		return n > 0
+	case *ssa.Lookup:
+		if ci := w.constMapLoad(x.X); ci != nil {
+			for _, ev := range ci.entries {
+				if ev.kind != cConst || ev.c.Kind() != constant.String || constant.StringVal(ev.c) == "<param>" {
+					return false
+				}
+			}
+			return len(ci.entries) > 0
+		}
+	case *ssa.Extract:
+		if lk, ok := x.Tuple.(*ssa.Lookup); ok && x.Index == 0 {
+			return w.neverParamKind(lk, depth+1)
+		}
+	}
+	return false
+}
+
+// shorterThanParamKind: the text stored as the kind is known to be shorter than "<param>" (an operator's own spelling:
+// TokenKind(l.slice(0, n)) with n <= 2).
+func (e *lbEngine) shorterThanParamKind(in *lbInst, st *lstate, v ssa.Value) bool {
+	for {
+		switch x := v.(type) {
+		case *ssa.ChangeType:
+			v = x.X
+			continue
+		case *ssa.Convert:
+			v = x.X
+			continue
+		}
+		break
+	}
+	if !isStringish(v.Type()) {
+		return false
+	}
+	return st.proves(e.at, lfact{l: linConst(int64(len("<param>") - 1)).sub(e.lenLin(in, v))})
 }
 
 // kindNotParam: a non-constant value stored into Token.Kind that cannot be "<param>": a one-byte string
